@@ -175,8 +175,65 @@ def unit_lhs_drift():
     return u
 
 
+def unit_driftm_eval():
+    """a monomial drift function is the product of the coordinates raised to ITS powers (whatever the degree): this is the function the universality conditions are written for"""
+    from tools.vf import Fn, Unit
+    ND = 3
+    pre = """
+#define ND %d
+int nondet_int(); bool nondet_bool();
+/* abstract domain of the evaluation: a monomial  c * x0^e0 * x1^e1 * x2^e2  with integer exponents (a number when all exponents are 0).
+   The real text is compiled with 'double' standing for this domain, so that x*x, pow(x,2) and pow(x,1)*x denote the same value by construction */
+struct Sym { int c; int e[ND]; bool bad;
+  Sym() : c(0), bad(false) { for (int k = 0; k < ND; k++) e[k] = 0; }
+  Sym(int v) : c(v), bad(false) { for (int k = 0; k < ND; k++) e[k] = 0; }
+  Sym(const Sym& r) : c(r.c), bad(r.bad) { for (int k = 0; k < ND; k++) e[k] = r.e[k]; }
+  Sym& operator=(const Sym& r) { c = r.c; bad = r.bad; for (int k = 0; k < ND; k++) e[k] = r.e[k]; return *this; }
+  bool isnum() const { for (int k = 0; k < ND; k++) if (e[k] != 0) return false; return true; }
+  Sym& operator*=(const Sym& r) { c = c * r.c; bad = bad || r.bad; for (int k = 0; k < ND; k++) e[k] = e[k] + r.e[k]; return *this; }
+};
+static Sym operator*(const Sym& a, const Sym& b) { Sym r(a); r *= b; return r; }
+static bool operator==(const Sym& a, int v) { return a.isnum() && a.c == v; }
+static bool operator!=(const Sym& a, int v) { return !(a == v); }
+static bool operator>(const Sym& a, int v) { return a.isnum() && a.c > v; }
+static bool operator<(const Sym& a, int v) { return a.isnum() && a.c < v; }
+static bool operator>=(const Sym& a, int v) { return a.isnum() && a.c >= v; }
+static bool operator<=(const Sym& a, int v) { return a.isnum() && a.c <= v; }
+/* pow(monomial, non-negative integer number) */
+static Sym pow(const Sym& x, const Sym& p) { Sym r(1); if (!p.isnum() || p.c < 0) { r.bad = true; return r; } r.bad = x.bad || p.bad;
+  r.c = 1; for (int q = 0; q < 8; q++) if (q < p.c) r.c = r.c * x.c; for (int k = 0; k < ND; k++) r.e[k] = x.e[k] * p.c; return r; }
+static Sym pow(const Sym& x, int p) { return pow(x, Sym(p)); }
+struct VectorInt { int a[ND]; int n; int size() const { return n; } int operator[](int i) const { __CPROVER_assert(0 <= i && i < n, "power rank"); return a[i]; } };
+struct Db { Sym getCoordinate(int iech, int idim) const { __CPROVER_assert(0 <= idim && idim < ND, "coordinate rank"); Sym r(1); r.e[idim] = 1; return r; } };
+#define double Sym
+struct DriftM { VectorInt _monomialPower; double eval(const Db* db, int iech) const; };
+""" % ND
+    f = Fn("DriftM::eval", "src/Drifts/DriftM.cpp", r"^double DriftM::eval\(const Db\* db, int iech\) const\s*$")
+    h = """
+#undef double
+void vf_harness()
+{
+  DriftM D; Db db;
+  D._monomialPower.n = nondet_int(); __CPROVER_assume(0 <= D._monomialPower.n && D._monomialPower.n <= ND);
+  for (int k = 0; k < ND; k++) { D._monomialPower.a[k] = nondet_int(); __CPROVER_assume(0 <= D._monomialPower.a[k] && D._monomialPower.a[k] <= 6); }
+  Sym v = D.eval(&db, 0);
+  __CPROVER_assert(!v.bad && v.c == 1, "the monomial has coefficient 1");
+  for (int k = 0; k < ND; k++)
+    __CPROVER_assert(v.e[k] == (k < D._monomialPower.n ? D._monomialPower.a[k] : 0), "the monomial carries, for every space dimension, exactly the power declared for it (whatever the degree)");
+  VF_REACH();
+}
+"""
+    return Unit("C02.DriftM.eval", [f], mode="cpp", prelude=pre, harness=h, unwind=9, checks=[], backends=("minisat", "cadical"), timeout=600,
+                bounded="space dimension <= %d, powers <= 6 (unwinding assertions)" % ND,
+                claim=("DriftM::eval (the monomial drift functions 1, x, y, x2, xy, x3, ... that the universality conditions are written for; real text verbatim, evaluated in the "
+                       "abstract domain of monomials with integer exponents): the value at a sample is the product over the space dimensions of coordinate ^ declared power, for "
+                       "every power up to 6"),
+                assumptions=["Route X: 'double' stands for the monomial domain (x*x, pow(x,2) and x*pow(x,1) are the same value by construction); floating-point rounding not modelled"],
+                canaries=[{"fn": "DriftM::eval", "rx": r"value \*= pow\(locoor, locpow\);", "rp": "value *= locoor;", "expect": r"assertion"}])
+
+
 def units(tier):
-    return [unit_stdv(), unit_nugget(), unit_getmean(), unit_rhs_drift(), unit_lhs_drift()]
+    return [unit_stdv(), unit_nugget(), unit_getmean(), unit_rhs_drift(), unit_lhs_drift(), unit_driftm_eval()]
 
 
 META = {
@@ -190,7 +247,7 @@ META = {
 }
 MANIFEST = {
     "category": "other",
-    "text": "Partial: the stored standard deviation is always a non-negative non-NaN number; nugget counted at zero distance; no mean subtracted when drift equations are present; universality rows of the left- and right-hand sides hold the drift functions of exactly the neighbourhood samples / the target.",
+    "text": "Partial: the stored standard deviation is always a non-negative non-NaN number; nugget counted at zero distance; no mean subtracted when drift equations are present; universality rows of the left- and right-hand sides hold the drift functions of exactly the neighbourhood samples / the target; a monomial drift function carries exactly its declared powers (abstract-domain evaluation of DriftM::eval).",
     "note": "Relations between numerical solves (exactness, unbiasedness, linearity, invariances) are N/A for this technique.",
     "design_ref": "DESIGN.md 3 C02",
 }
